@@ -23,6 +23,7 @@ package reconciler
 
 // A failed sync is put back on the queue (rate limited) unless a positive requeue limit is exhausted; the error is returned.
 //@ func Controller.syncItem
+//@   params w, ctx, item
 //@   tags C20
 //@   requires w != nil
 //@   modifies syncN, syncErrs, rlN, rlKey, clock
@@ -34,6 +35,7 @@ package reconciler
 //@   ensures [C20] requeue-at-most-once: rlN <= old(rlN) + 1
 
 //@ func Controller.work
+//@   params w, ctx
 //@   tags C20
 //@   requires w != nil
 //@   modifies syncN, syncErrs, rlN, rlKey, forgotN, doneN, clock
